@@ -43,6 +43,93 @@ def text_files(b: str) -> T.Dict[str, bytes]:
     return out
 
 
+def corpus_text_files(b: str) -> T.Dict[str, bytes]:
+    """For corpus projects the set of configure-time outputs is not known in advance: take build.ninja, meson-info/*.json
+    and every other regular non-binary file outside meson-private/meson-logs (configure_file outputs, generated *.pc ...)."""
+    out: T.Dict[str, bytes] = {}
+    for root, dirs, files in os.walk(b):
+        rel = os.path.relpath(root, b)
+        if rel.split(os.sep)[0] in ('meson-logs', 'meson-private') and not rel.startswith('meson-private'):
+            dirs[:] = []
+            continue
+        # outputs of external tools run at configure time (cmake's own build tree) are not meson's generated text
+        dirs[:] = [d for d in dirs if d not in ('__CMake_build', 'CMakeFiles', '__pycache__')]
+        for fn in files:
+            p = os.path.join(root, fn)
+            r = os.path.relpath(p, b)
+            if r.startswith('meson-private') and not r.endswith('.pc'):
+                continue
+            if r in ('compile_commands.json',) or r.startswith('meson-logs'):
+                continue
+            try:
+                if os.path.islink(p) or os.path.getsize(p) > 4_000_000:
+                    continue
+                with open(p, 'rb') as f:
+                    data = f.read()
+            except OSError:
+                continue
+            if b'\0' in data[:4096]:
+                continue
+            out[r] = data
+    return out
+
+
+def run_corpus(job: T.Tuple[str, str, int]) -> dict:
+    """One project of the repository's test corpus: cold configurations under PYTHONHASHSEED 0/1/2 (the latter two with
+    shuffled env and readdir order) in one fixed path; every generated text file must be byte-identical."""
+    srcdir, root, idx = job
+    base = os.path.join(root, f'c{idx}')
+    src, b = os.path.join(base, 'src'), os.path.join(base, 'b')
+    res: T.Dict[str, T.Any] = {'corpus': os.path.basename(srcdir), 'problems': [], 'compared': 0, 'skipped': None, 'runs': 0}
+    try:
+        shutil.copytree(srcdir, src, symlinks=True)
+    except (OSError, shutil.Error) as e:
+        res['skipped'] = f'copy failed: {e}'
+        return res
+    ref: T.Optional[T.Dict[str, bytes]] = None
+    for hs in (0, 1, 2):
+        shutil.rmtree(b, ignore_errors=True)
+        # some corpus projects write into their source tree at configure time: start every run from a pristine copy
+        shutil.rmtree(src, ignore_errors=True)
+        shutil.copytree(srcdir, src, symlinks=True)
+        env = runner.base_env()
+        env['PYTHONHASHSEED'] = str(hs)
+        how = {'PYTHONHASHSEED': hs, 'env_order': 'natural', 'readdir': 'natural'}
+        if hs:
+            items = list(env.items())
+            random.Random(idx * 10 + hs).shuffle(items)
+            env = dict(items)
+            env['MESON_VERIF'] = '1'
+            env['MESON_VERIF_MONITORS'] = f'readdir_shuffle:{idx + hs}'
+            env['PYTHONPATH'] = runner.INJECT_DIR
+            how.update(env_order='shuffled', readdir='shuffled')
+        rc = runner.meson_cold(['setup', b, src], cwd=src, env=env, timeout=240)
+        if rc.timed_out or rc.rc != 0:
+            if ref is None:
+                res['skipped'] = 'does not configure here: ' + (rc.out + rc.err)[-200:]
+                break
+            if rc.timed_out:
+                res['skipped'] = 'timeout'
+                break
+            res['problems'].append({'mechanism': 'corpus/configure-outcome-differs', 'corpus': res['corpus'], 'how': how, 'tail': (rc.out + rc.err)[-400:]})
+            break
+        got = corpus_text_files(b)
+        res['runs'] += 1
+        if ref is None:
+            ref = got
+            continue
+        for rel in sorted(set(ref) | set(got)):
+            res['compared'] += 1
+            if rel not in got or rel not in ref:
+                res['problems'].append({'mechanism': 'corpus/file-set-differs', 'corpus': res['corpus'], 'file': rel, 'how': how})
+            elif got[rel] != ref[rel]:
+                locus = json_locus(rel, ref[rel], got[rel]) if rel.endswith('.json') else 'text'
+                res['problems'].append({'mechanism': f'corpus/{os.path.basename(rel) if rel.startswith("meson-info") or rel == "build.ninja" else "generated-file"}/{locus}',
+                                        'corpus': res['corpus'], 'file': rel, 'how': how, 'diff': first_diff(ref[rel], got[rel])})
+    shutil.rmtree(base, ignore_errors=True)
+    return res
+
+
 def first_diff(a: bytes, b: bytes) -> T.Dict[str, T.Any]:
     la, lb = a.split(b'\n'), b.split(b'\n')
     for i, (x, y) in enumerate(zip(la, lb)):
@@ -262,6 +349,21 @@ def main() -> int:
         return 0
     jobs = [(chk.seed * 1000 + i, root, chk.tier, hashseeds, norders) for i in range(nproj)]
     results = common.pmap(run_project, jobs, chk.jobs, timeout=3400)
+    # ---- repository corpus (test cases/common): many more meson features than the generator knows about ----------
+    cdir = os.path.join(common.REPO, 'test cases', 'common')
+    names = sorted(n for n in os.listdir(cdir) if os.path.isfile(os.path.join(cdir, n, 'meson.build')))
+    chk.rng.shuffle(names)
+    ncorpus = 14 if chk.tier == 'quick' else 160
+    cjobs = [(os.path.join(cdir, n), root, i) for i, n in enumerate(names[:ncorpus])]
+    for res in common.pmap(run_corpus, cjobs, chk.jobs, timeout=3400):
+        if res['skipped'] is not None:
+            chk.count('corpus_skipped')
+            continue
+        chk.count('corpus_projects')
+        chk.count('monitor:corpus_files_byte_compared', res['compared'])
+        chk.case(('corpus', res['corpus']))
+        for p in res['problems']:
+            chk.violation(p['mechanism'], {k: v for k, v in p.items() if k != 'mechanism'})
     for res in results:
         if res['skipped'] is not None:
             chk.count('projects_skipped_configure_failed')
@@ -284,6 +386,7 @@ def main() -> int:
     chk.require('monitor:files_byte_compared', 200)
     chk.require('monitor:mtime_inode_checked', 4)
     chk.require('histories_compared', 4)
+    chk.require('corpus_projects', 3)
     return chk.finish(
         rule='case = (generated C project, perturbation {PYTHONHASHSEED, env insertion order, readdir order}) configured cold in one fixed '
              'absolute path and byte-compared with the reference; plus histories and a no-change reconfigure per project; distinct = distinct (project, perturbation)',
